@@ -60,6 +60,20 @@ func findAdapter(reg []ReplayAdapter, fn string) *ReplayAdapter {
 	return nil
 }
 
+// findAdapters: every adapter that exercises the function (several may: a unit-level one and an end-to-end one).
+func findAdapters(reg []ReplayAdapter, fn string) []*ReplayAdapter {
+	var out []*ReplayAdapter
+	for i := range reg {
+		for _, f := range reg[i].Functions {
+			if f == fn {
+				out = append(out, &reg[i])
+				break
+			}
+		}
+	}
+	return out
+}
+
 var replayCache = map[string]*adapterRun{}
 
 type adapterRun struct {
@@ -129,8 +143,8 @@ func parseAdapter(r *adapterRun, fn, label string) *ReplayResult {
 
 // runReplay looks for a concrete failing input of the real function for a failed obligation.
 func runReplay(reg []ReplayAdapter, o *Obligation, prop string, wd string) *ReplayResult {
-	a := findAdapter(reg, o.Fn)
-	if a == nil {
+	as := findAdapters(reg, o.Fn)
+	if len(as) == 0 {
 		return nil
 	}
 	label := o.Label
@@ -143,15 +157,39 @@ func runReplay(reg []ReplayAdapter, o *Obligation, prop string, wd string) *Repl
 			label = ""
 		}
 	}
-	r := runAdapter(a, wd)
-	res := parseAdapter(r, o.Fn, label)
-	res.Adapter = a.File + ":" + a.Test
-	res.Bound = a.Bound
-	if label == "" {
-		// any failing clause of the function counts for invariant / frame / precondition obligations
-		res.Failed = len(res.Failures) > 0
+	var first, weaker *ReplayResult
+	for _, a := range as {
+		if !hasProp(a.Properties, prop) && len(as) > 1 {
+			continue
+		}
+		r := runAdapter(a, wd)
+		res := parseAdapter(r, o.Fn, label)
+		res.Adapter = a.File + ":" + a.Test
+		res.Bound = a.Bound
+		if label == "" {
+			// any failing clause of the function counts for invariant / frame / precondition obligations
+			res.Failed = len(res.Failures) > 0
+		}
+		if res.Failed {
+			res.FoundBy = "input violating the executable form of the failed clause (or, for invariants and preconditions, of a clause of the same function)"
+			return res
+		}
+		if first == nil {
+			first = res
+		}
+		if weaker == nil && len(res.Other) > 0 {
+			weaker = res
+		}
 	}
-	return res
+	if weaker != nil {
+		// no input violates the clause of the same name, but the function misbehaves on these inputs: the executable
+		// clauses and the contract clauses are not one to one (one behaviour may be stated by several clauses)
+		weaker.Failed = true
+		weaker.Failures = weaker.Other
+		weaker.FoundBy = "input violating another executable clause of the same function"
+		return weaker
+	}
+	return first
 }
 
 // runStandins executes every adapter of the property's functions (thorough tier): the executable contracts
